@@ -59,3 +59,243 @@ def view_deps(ctx: Ctx) -> None:
     for n in missing:
         ctx.undetermined("VIEW", f"Sequence.{n}", "method not found: not judged")
     check_wrappers(ctx, have)
+
+
+# ---------------------------------------------------------------------------------------------------- dependency closure
+_CG: dict[int, dict[str, set[str]]] = {}
+
+
+def call_graph(ctx: Ctx) -> dict[str, set[str]]:
+    """Type-resolved call graph (from the numeric-kind engine's receiver resolution) plus property reads."""
+    import ast
+    key = id(ctx.p)
+    if key in _CG:
+        return _CG[key]
+    from ..engines.kinds import KindEngine
+    eng = KindEngine(ctx.p)
+    eng.solve()
+    g = {k: set(v) for k, v in eng.edges.items()}
+    props = {}
+    for fi in ctx.p.all_functions():
+        if fi.cls and any(isinstance(d, ast.Name) and d.id == "property" for d in fi.node.decorator_list):
+            props.setdefault(fi.name, []).append(fi.qualname)
+    for fi in ctx.p.all_functions():
+        for n in ast.walk(fi.node):
+            if isinstance(n, ast.Attribute) and n.attr in props:
+                g.setdefault(fi.qualname, set()).update(props[n.attr])
+        if fi.parent_func is not None:                       # a nested function belongs to its parent
+            g.setdefault(fi.parent_func.qualname if hasattr(fi.parent_func, "qualname") else str(fi.parent_func), set()).add(fi.qualname)
+    _CG.clear()
+    _CG[key] = g
+    return g
+
+
+def reachable(ctx: Ctx, roots, stop=()) -> set[str]:
+    g = call_graph(ctx)
+    seen, todo = set(), list(roots)
+    while todo:
+        q = todo.pop()
+        if q in seen or q in stop:
+            continue
+        seen.add(q)
+        todo.extend(g.get(q, ()))
+    return seen
+
+
+# ---------------------------------------------------------------------------------------------------- rule registry
+def _r_normalise(c):
+    from . import c07
+    c07._check(c)
+
+
+def _r_split(c):
+    from .c08 import split_rules
+    # Q1 (deferred events at the very end of the input, a known finding of C08) concerns zero-time events sitting exactly on the
+    # final boundary; it does not affect what the dependants state (sounding sets, bar durations), so it stays C08's own rule
+    split_rules(c, {"KEY", "CUT", "RESTRIKE", "COUNT", "PLACE", "DEST", "PIECE", "FLOW"})
+
+
+def _r_quantise(c):
+    from . import c05
+    c05._check(c)
+
+
+def _r_qnl(c):
+    from . import c06
+    c06._check(c)
+
+
+def _r_pairings(c):
+    from ..engines.pairing import check_pairings
+    from ..engines import keykind
+    keykind.check_function(c, "AbsoluteSequence.get_message_pairings", "KEY", expect_min=2)
+    check_pairings(c)
+
+
+def _r_interleave(c):
+    from ..engines.structure import interleave_rule
+    interleave_rule(c)
+
+
+def _r_bisect(c):
+    from ..engines.structure import bisect_rule
+    bisect_rule(c)
+
+
+def _r_argmin(c):
+    from ..engines.structure import argmin_rule
+    argmin_rule(c)
+
+
+def _r_conv(c):
+    from ..engines.structure import conversion_structure
+    conversion_structure(c)
+
+
+def _r_c18(which):
+    def run(c):
+        from . import c18
+        c18._check(c, only={which})
+    return run
+
+
+def _r_bar(c):
+    from .c10 import bar_rules
+    bar_rules(c)
+
+
+def _r_merge(c):
+    from . import c15
+    c15._check(c)
+
+
+def _r_transpose(c):
+    from . import c14
+    c14._check(c)
+
+
+def _r_times(c):
+    from ..engines.structure import times_of_type_rule
+    times_of_type_rule(c)
+
+
+def _r_concat(c):
+    from ..engines.structure import concat_rule
+    concat_rule(c)
+
+
+def _r_duration(c):
+    from .c10 import duration_measure
+    duration_measure(c)
+
+
+def _r_equals(c):
+    from . import c17
+    c17._check(c)
+    c17._extra(c)
+
+
+def _r_bars(c):
+    from . import c09
+    c09._main_check(c)
+
+
+def _r_tables(c):
+    from . import c20
+    c20.check(c)
+
+
+# function -> (the rule group that decides it, label).  A property whose code reaches the function rests on the group.
+REGISTRY = {
+    "RelativeSequence.normalise_relative": (_r_normalise, "normaliser (C07 rules)"),
+    "RelativeSequence.split": (_r_split, "split (C08 rules)"),
+    "AbsoluteSequence.quantise": (_r_quantise, "quantise (C05 rules)"),
+    "AbsoluteSequence.quantise_note_lengths": (_r_qnl, "note-length quantisation (C06 rules)"),
+    "AbsoluteSequence.get_message_pairings": (_r_pairings, "pairing table (PAIR)"),
+    "AbsoluteSequence.get_interleaved_message_pairings": (_r_interleave, "interleaving (INTERLEAVE)"),
+    "binary_insort": (_r_bisect, "sorted insertion (BISECT)"),
+    "find_minimal_distance": (_r_argmin, "nearest candidate (ARGMIN)"),
+    "AbsoluteSequence.to_relative_sequence": (_r_conv, "view conversions (CONV)"),
+    "RelativeSequence.to_absolute_sequence": (_r_conv, "view conversions (CONV)"),
+    "RelativeSequence.pad": (_r_c18("pad"), "pad (C18 rules)"),
+    "AbsoluteSequence.cutoff": (_r_c18("cutoff"), "cutoff (C18 rules)"),
+    "RelativeSequence.set_channel": (_r_c18("set_channel"), "set_channel (C18 rules)"),
+    "Bar.__init__": (_r_bar, "bar construction (C10 rules)"),
+    "AbsoluteSequence.merge": (_r_merge, "merge (C15 rules)"),
+    "RelativeSequence.transpose": (_r_transpose, "transposition (C14 rules)"),
+    "AbsoluteSequence.get_message_times_of_type": (_r_times, "signature look-up helper (TIMES)"),
+    "RelativeSequence.concatenate": (_r_concat, "concatenation (CONCAT)"),
+    "RelativeSequence.get_sequence_duration_relation": (_r_duration, "duration in quarters (MEASURE)"),
+    "AbsoluteSequence.equals": (_r_equals, "equality (C17 rules)"),
+    "Sequence.sequences_split_bars": (_r_bars, "bar splitting (C09 rules)"),
+    "Key.transpose_key": (_r_tables, "key tables (C20 rules)"),
+}
+
+# properties whose statement is about one operation or pipeline (closure meaningful); C02 / C04 / C11 / C16 / C20 are
+# whole-class or whole-program analyses already
+CLOSURE_PROPS = {"C01", "C03", "C05", "C06", "C07", "C08", "C09", "C10", "C12", "C13", "C14", "C15", "C17", "C18", "C19"}
+
+
+# call edges outside the scope of a property's statement (C18 speaks about integer factors >= 1; the factor < 1 path of scale
+# re-bars the sequence)
+STOP = {"C18": {"Sequence.sequences_split_bars"}}
+
+
+def dependency_closure(ctx: Ctx) -> None:
+    """DEP: every routine the property's own code reaches (type-resolved call graph from the functions the check looked at)
+    that is decided by a rule group of its own contributes that group's obligations; Sequence-level wrappers on the way
+    contribute VIEW obligations.  A break in a routine the property rests on is a break of the property."""
+    from ..model import AnalysisError
+    from ..engines.typestate import TypestateEngine, check_wrappers
+    if ctx.prop not in CLOSURE_PROPS:
+        return
+    roots = sorted(ctx.analysed_functions)
+    reach = reachable(ctx, roots, STOP.get(ctx.prop, set()))
+    have = {(o.rule, o.instance) for o in ctx.obligations}
+    keys = {f.key for f in ctx.findings}
+    done = set()
+    ran = []
+    for q in sorted(reach):
+        ent = REGISTRY.get(q)
+        if ent is None or id(ent[0]) in done:
+            continue
+        done.add(id(ent[0]))
+        sub = Ctx(ctx.p, ctx.prop, ctx.tier)
+        try:
+            ent[0](sub)
+        except AnalysisError as e:
+            ctx.undetermined("DEP", f"{ent[1]} (reached through {q})", f"its analysis could not be completed: {str(e)[:120]}")
+            continue
+        ran.append(ent[1])
+        for o in sub.obligations:
+            if (o.rule, o.instance) not in have:
+                have.add((o.rule, o.instance))
+                ctx.obligations.append(o)
+        for f in sub.findings:
+            if f.key not in keys:
+                keys.add(f.key)
+                ctx.findings.append(f)
+        ctx.analysed_functions |= sub.analysed_functions
+    eng = TypestateEngine(ctx.p, "Sequence")
+    wrappers = sorted(q.split(".", 1)[1] for q in reach if q.startswith("Sequence.") and q.split(".", 1)[1] in eng.ci.methods
+                      and not q.split(".", 1)[1].startswith("_") and not eng.ci.methods[q.split(".", 1)[1]].is_static
+                      and q.split(".", 1)[1] not in ("abs", "rel", "invalidate_abs", "invalidate_rel", "refresh"))
+    sub = Ctx(ctx.p, ctx.prop, ctx.tier)
+    check_wrappers(sub, wrappers)
+    for o in sub.obligations:
+        if (o.rule, o.instance) not in have:
+            have.add((o.rule, o.instance))
+            ctx.obligations.append(o)
+    for f in sub.findings:
+        if f.key not in keys:
+            keys.add(f.key)
+            ctx.findings.append(f)
+    ctx.extra["dependency_closure"] = {"roots": roots, "reached_functions": len(reach), "rule_groups_included": ran, "view_wrappers": wrappers}
+
+
+def run_property(ctx: Ctx) -> None:
+    """The property's own rules, then the rule groups of everything its code rests on."""
+    import importlib
+    mod = importlib.import_module(f"sa.props.{ctx.prop.lower()}")
+    mod.check(ctx)
+    dependency_closure(ctx)
